@@ -1314,8 +1314,8 @@ Lemma core_canon E0 (GL : list (payload * list er)) :
 Proof.
   intro H. unfold ccanon. rewrite map_app, core_elift. f_equal.
   induction H as [|[P E] r [Hp Hd] HF IH]; cbn [flat_map map fst snd]; [reflexivity|].
-  rewrite map_app, core_nest, core_elift, IH. unfold core at 1. cbn [fst snd] in Hp, Hd. rewrite Hp, Hd.
-  reflexivity.
+  cbn [app map]. rewrite map_app, core_nest, core_elift, IH. cbn [fst snd] in Hp, Hd.
+  unfold core at 1. rewrite Hp, Hd. reflexivity.
 Qed.
 
 Section Reassembly.
@@ -1570,10 +1570,10 @@ Section Reassembly.
       fold cfd. rewrite Hii.
       eexists _, _, _, _, _. split; [reflexivity|]. split; [reflexivity|].
       (* reassembly of the list *)
-      destruct (items_rel cfp cfd items Hrel) as [ms [I1 [I2 I3]]].
-      split; [apply I3|]. exists (JList ms). split.
-      + exact (level_items _ _ I1 []).
-      + constructor. exact I2.
+      destruct (items_rel cfp cfd items Hrel) as [ms [I1 [I2 [I3 I4]]]].
+      split; [apply I3|]. split.
+      + exists (JList ms). split; [exact (level_items _ _ I1 [])|constructor; exact I2].
+      + apply level_any_items; [exact I4|apply c_ok_core; apply I3].
   Qed.
 
   Theorem reassembly_all : forall f, S_stmt f /\ F_stmt f /\ C_stmt f.
@@ -1641,7 +1641,8 @@ Theorem reassembly_fuel fuel s d vars root j cs pl rv :
   exists j0 cs0 pls rv0,
     dexecute_fuel true fuel s d vars root = DResp j0 [] cs0 pls rv0 /\
     Forall pl_ok pls /\
-    exists m, reassemble j0 pls = Some m /\ jeq m j.
+    (exists m, reassemble j0 pls = Some m /\ jeq m j) /\
+    (forall pls' m', Permutation pls pls' -> reassemble j0 pls' = Some m' -> jeq m' j).
 Proof.
   unfold dexecute_fuel.
   destruct (coerce_variable_values s (d_vars d) vars) as [cv|]; [|discriminate].
@@ -1653,11 +1654,13 @@ Proof.
     as [[[[[r es] cs1] pls1] rv1]|] eqn:Ep; [|discriminate].
   assert (He : es = []) by (destruct r; inversion H; reflexivity). subst es.
   destruct (reassembly_all s (d_frags d) cv fuel) as [HS _].
-  destruct (HS _ _ _ _ [] _ _ _ _ _ _ Ep) as [j' [j0 [cs0 [pls [rv0 [-> [Hd [Hok [m [Hm Hj]]]]]]]]]].
+  destruct (HS _ _ _ _ [] _ _ _ _ _ _ Ep) as [j' [j0 [cs0 [pls [rv0 [-> [Hd [Hok [[m [Hm Hj]] Hany]]]]]]]]].
   inversion H; subst; clear H. rewrite Hd.
   exists j0, cs0, (deliver pls), rv0. split; [reflexivity|].
-  rewrite (deliver_ok _ Hok). split; [exact Hok|].
-  exists m. split; [rewrite reassemble_apply_pls; exact Hm|exact Hj].
+  rewrite (deliver_ok _ Hok). split; [exact Hok|]. split.
+  - exists m. split; [rewrite reassemble_apply_pls; exact Hm|exact Hj].
+  - intros pls' m' Hp Hr. rewrite reassemble_apply_pls, apply_pls_core in Hr.
+    eapply Hany; [apply Permutation_map; exact Hp|exact Hr].
 Qed.
 
 (* ================================================================== the base executor computes
@@ -2615,4 +2618,37 @@ Proof.
              ++ eapply IHg; [|exact H3|exact H4]. intros s1 g1 e1 H5 H6. eapply Hinv; [right; exact H5|exact H6]. }
   specialize (Hgroups (to_gfs dg) [] [] sdu g (i, details_of fs) (fun _ _ _ (H : In _ []) => match H with end) Hg Hi).
   cbn [snd] in Hgroups. congruence.
+Qed.
+
+(* ------------------------------------------------------------------ ... and is therefore in the initial
+   data of the position (when the runtime type defines the field) *)
+Lemma dexec_groups_key ef g : forall kvs es cs pls rv k fs,
+  dexec_groups ef g = Some (Some kvs, es, cs, pls, rv) ->
+  In (k, fs) g -> ef fs <> Some XSkip -> In k (map fst kvs).
+Proof.
+  induction g as [|[k0 fs0] rest IH]; intros kvs es cs pls rv k fs H Hin Hns; [destruct Hin|].
+  cbn [dexec_groups] in H.
+  destruct (ef fs0) as [[|[[[[[j|] es0] cs0] pl0] rv0]]|] eqn:Ef; [| | |discriminate].
+  - destruct Hin as [Hin|Hin]; [inversion Hin; subst; congruence|]. eapply IH; eauto.
+  - destruct (dexec_groups ef rest) as [[[[[r' es'] cs'] pls'] rv']|] eqn:Er; [|discriminate].
+    destruct r' as [kvs'|]; [|discriminate]. inversion H; subst; clear H. cbn [map fst].
+    destruct Hin as [Hin|Hin]; [inversion Hin; subst; left; reflexivity|].
+    right. eapply IH; eauto.
+  - discriminate.
+Qed.
+
+Theorem nondeferred_in_initial_data s frags cv f tn obj srcs b dp kvs es cs pls rv st k fs :
+  dexec_sels s frags cv true (S f) tn obj srcs [] b dp = Some ((CVal (JObj kvs), es, cs), pls, rv) ->
+  dcollect_srcs s frags cv tn b dp f srcs cs0 = Some st ->
+  In (k, fs) (c_g st) -> (exists x, In x fs /\ df_du x = []) ->
+  dexec_field s frags cv true f tn obj [] (b + N.of_nat (length (c_new st))) dp fs <> Some XSkip ->
+  In k (map fst kvs).
+Proof.
+  intros H Hc Hin Hnd Hns. rewrite dexec_sels_S, Hc in H. cbv zeta in H.
+  pose proof (nondeferred_in_initial (c_g st) k fs Hin Hnd) as Hinit.
+  destruct (plan_of (c_g st) []) as [init groups]. cbn [fst snd] in *.
+  destruct (dexec_groups _ init) as [[[[[r es1] cs1] pls1] rv1]|] eqn:Eg; [|discriminate].
+  destruct r as [kvs1|]; [|discriminate].
+  destruct (dexec_deferred _ groups) as [[dpls rv2]|]; [|discriminate].
+  inversion H; subst; clear H. eapply dexec_groups_key; eauto.
 Qed.
